@@ -589,5 +589,6 @@ RULES = [
     ("C16.bpowner", lambda c, r: c15.rule_bp_owner(c, r, "C16.bpowner")),   # the child keeps the slot whose tid is its own
     ("C16.forkhooks", lambda c, r: __import__("sa.rules.lfht2", fromlist=["x"]).rule_lfht_forkhooks(c, r, "C16.forkhooks")),
     ("C16.workcb", lambda c, r: __import__("sa.rules.lfht2", fromlist=["x"]).rule_workcb(c, r, "C16.workcb")),
+    ("C16.listtrav", lambda c, r: __import__("sa.rules.c15", fromlist=["x"]).rule_listtrav(c, r, "C16.listtrav")),   # the fork handlers visit every helper / registry chunk with these macros
 ]
 FLOORS = {}
